@@ -150,7 +150,12 @@ pub fn c05(out: &mut Out, tier: &str, rng: &mut Rng) {
             run_long(out, rng, p, &d, nlong);
         }
     }
-    // "consequently": a strictly decreasing stream is tracked as well as the reversed, increasing one
+    // "consequently": a strictly decreasing stream (new minima keep arriving) is tracked as well as the reversed,
+    // increasing one. What carries this claim is the theorem `n0_eq_one` (marker 0 never moves) together with the
+    // bit-exact comparison with the P-square specification below (`O psq`); the numerical comparison here is only a
+    // coarse sanity bound: on sorted uniform data P-square's relative error (in units of the data range) stayed below
+    // 0.34 in 36,000 trials in either direction, while the repaired defect (position of marker 0 incremented) gave
+    // 0.87-0.98 on decreasing streams. Bound: 0.6.
     for &p in &[0.1, 0.25, 0.5, 0.75, 0.9] {
         for n in [50usize, 200, 1000, 5000] {
             if !out.next_case() { continue; }
@@ -163,7 +168,7 @@ pub fn c05(out: &mut Out, tier: &str, rng: &mut Rng) {
             let exact = exact_quantile(&inc, p);
             let range = inc[inc.len() - 1] - inc[0];
             let (ei, ed) = ((qi.quantile() - exact).abs() / range, (qd.quantile() - exact).abs() / range);
-            out.x(ed <= ei.max(0.02) * 3.0 + 0.05, || format!("decreasing stream tracks the {:?}-quantile worse than the increasing one: rel.err {:?} vs {:?} (n={})", p, ed, ei, inc.len()));
+            out.x(ed <= 0.6 && ei <= 0.6, || format!("sorted stream not tracked: p={:?} n={} relative error decreasing {:?}, increasing {:?}", p, inc.len(), ed, ei));
             psq_oracle(out, &qd, p, &dec);
             psq_oracle(out, &qi, p, &inc);
         }
